@@ -206,12 +206,20 @@ def find_write_functions(spec):
                     pass
 
     def pass1():
+        # fingerprint after EVERY op: a flag that one call sets and the next resets is shared state too
         shared_env, envs = build_envs(spec, cats)
-        rl = state.roots(prefixes, _shared_objects(shared_env, envs))
-        f0 = state.fingerprint(rl)
-        run_all(envs)
-        f1 = state.fingerprint(state.roots(prefixes, _shared_objects(shared_env, envs)))
-        return sorted(k for k in f1 if f0.get(k) != f1[k])
+        prev = state.fingerprint(state.roots(prefixes, _shared_objects(shared_env, envs)))
+        changed_ = set()
+        for cl, env in zip(spec['clients'], envs):
+            for op in cl:
+                try:
+                    O.run_op(op, env)
+                except BaseException:  # noqa
+                    pass
+                cur = state.fingerprint(state.roots(prefixes, _shared_objects(shared_env, envs)))
+                changed_.update(k for k in cur if prev.get(k) != cur[k])
+                prev = cur
+        return sorted(changed_)
 
     changed = _forked(pass1)
     if not changed:
@@ -224,6 +232,7 @@ def find_write_functions(spec):
         last = [state.fingerprint_light(rl), None]
         hits = {}
         cache = {}
+        names = [p_ for p_, _ in rl]
 
         def cb(code, line):
             ok = cache.get(code)
@@ -233,11 +242,14 @@ def find_write_functions(spec):
                 return mon.DISABLE
             fp = state.fingerprint_light(rl)
             if fp != last[0]:
-                last[0] = fp
                 prev = last[1]
                 if prev is not None:
                     key = (prev.co_filename[len(root):], prev.co_name, prev.co_firstlineno)
-                    hits[key] = hits.get(key, 0) + 1
+                    which = hits.setdefault(key, set())
+                    for i_, (a_, b_) in enumerate(zip(fp, last[0])):
+                        if a_ != b_:
+                            which.add(names[i_])
+                last[0] = fp
             last[1] = code
 
         mon.use_tool_id(3, 'dsim-wf')
@@ -245,10 +257,10 @@ def find_write_functions(spec):
         mon.set_events(3, mon.events.LINE)
         run_all(envs)
         mon.set_events(3, 0)
-        return sorted([list(k) for k in hits])[:12]
+        return sorted([list(k) + [sorted(v)] for k, v in hits.items()])[:16]
 
     fns = _forked(pass2) or []
-    return {'paths': changed[:30], 'fns': fns}
+    return {'paths': changed[:30], 'fns': [f[:3] for f in fns], 'by_fn': fns}
 
 
 def choose_focus(spec):
